@@ -77,6 +77,10 @@ AVOID = {
     'F34': True,    # #R addr@id used inside disassembly id itself (e.g. #R32768@main in the main skool file): "Address not found"
 }
 
+for _k in os.environ.get('VERIF_C16_COVER', '').split(','):
+    if _k in AVOID:
+        AVOID[_k] = False        # e.g. VERIF_C16_COVER=F30 to try a repaired tree before editing the table above
+
 # ---------------------------------------------------------------------------
 # Drawing helpers (every choice is a Hypothesis draw; strategies are cached)
 # ---------------------------------------------------------------------------
@@ -1163,6 +1167,9 @@ def oracle(case, rec=None):
             ann2 = _announced(r2.out)
             tree2 = htmlscan.scan_tree(s.path('out2'))
             probs += [(sig, 'run with -w %s: %s' % (wr, m)) for sig, m in check_tree(tree2, prefix, ann2, case['model'], set(wr), tree1)]
+    if case.get('ignore'):
+        # a reproducer of one finding may name other known classes that necessarily accompany it (e.g. F15 on every single-page tree)
+        probs = [pr for pr in probs if KNOWN_SIGS.get(pr[0]) not in case['ignore']]
     if rec is not None and all(sig in (F15_SIG, F28_SIG) for sig, _ in probs):
         # the remaining predicates held: the case counts as evaluated even if it also shows a known duplicate-id class
         _record(rec, case, tree1, prefix, sorted({KNOWN_SIGS[sig] for sig, _ in probs}))
@@ -1265,7 +1272,7 @@ def example_cases():
 
 
 def plan(tier, seed):
-    n = 2400 if tier == 'quick' else 48000
+    n = 4000 if tier == 'quick' else 48000
     nsh = 16 if tier == 'quick' else 64
     shards = [{'kind': 'hyp', 'tier': tier, 'n': n // nsh, 'seed': shard_seed(seed, PROPERTY, i)} for i in range(nsh)]
     if tier != 'quick':
